@@ -261,7 +261,7 @@ func (g *FuncGen) valOrAddr(v ssa.Value, st *State) string {
 // frameStore: a store to a map outside the contract's modifies set must hit an
 // object allocated during this call.
 func (g *FuncGen) frameStore(st *State, a *Addr, what string, pos token.Pos) {
-	if g.c == nil || g.modifiesAll {
+	if g.rootC == nil || g.modifiesAll {
 		return
 	}
 	if a.fresh {
@@ -635,7 +635,7 @@ func (g *FuncGen) execMapUpdate(x *ssa.MapUpdate, st *State) error {
 	v := g.val(x.Value)
 	g.check(st, "safe.nilmap", fmt.Sprintf("(not (= %s 0))", m), "assignment to entry in nil map", g.posOf(x))
 	md, mv, ml := g.mapDom(mt, nil), g.mapVal(mt, nil), g.mapLen(mt)
-	if g.c != nil && !g.modifiesAll && !g.fresh[m] && !(g.ownMod[md.Name] && g.ownMod[mv.Name]) {
+	if g.rootC != nil && !g.modifiesAll && !g.fresh[m] && !(g.ownMod[md.Name] && g.ownMod[mv.Name]) {
 		g.oblige("frame.store", "", st.reach, fmt.Sprintf("(>= %s %s)", m, g.alloc0), "map update outside modifies set must target a fresh map", g.posOf(x))
 	}
 	curD := g.heapGet(st.heap, md.Name, md.Sort)
@@ -701,6 +701,14 @@ func (g *FuncGen) execNext(x *ssa.Next, st *State) error {
 // ---------- return ----------
 
 func (g *FuncGen) execReturn(x *ssa.Return, st *State) error {
+	if g.depth > 0 {
+		ri := retInfo{reach: st.reach, heap: st.heap}
+		for _, r := range x.Results {
+			ri.results = append(ri.results, g.valOrAddr(r, st))
+		}
+		g.returns = append(g.returns, ri)
+		return nil
+	}
 	if g.c == nil {
 		return nil
 	}
